@@ -9,7 +9,7 @@ import json
 import sys
 
 
-def replay_case(body, with_history=True):
+def replay_case(body, with_history=True, shrink=True):
     """None if the case holds on the current tree, else a message.  A case that holds on its own but was
     recorded together with the calls that preceded it in its worker process is replayed after those calls."""
     mod = importlib.import_module("mc.checks.%s" % body["property"].lower())
@@ -22,7 +22,8 @@ def replay_case(body, with_history=True):
     import subprocess, sys, json, tempfile, os
     pre = body["preceding"]
     best = None
-    for k in sorted({len(pre)} | {min(len(pre), 1 << j) for j in range(0, 12)}, reverse=True):
+    sizes = sorted({len(pre)} | ({min(len(pre), 1 << j) for j in range(0, 12)} if shrink else set()), reverse=True)
+    for k in sizes:
         with tempfile.NamedTemporaryFile("w", suffix=".json", delete=False, dir=os.path.dirname(os.path.abspath(__file__)) + "/../build") as f:
             json.dump(dict(single, preceding=pre[len(pre) - k:]), f)
             tmp = f.name
@@ -55,10 +56,10 @@ def replay_sequence(body):
     return mod.REPLAY[body["kind"]](single)
 
 
-def replay_file(path):
+def replay_file(path, shrink=True):
     with open(path) as f:
         body = json.load(f)
-    return replay_case(body)
+    return replay_case(body, shrink=shrink)
 
 
 def main(argv=None):
@@ -69,10 +70,12 @@ def main(argv=None):
         msg = replay_sequence(body)
         print("   " + str(msg)[:1500] if msg else "holds")
         return 1 if msg else 0
+    shrink = "--no-shrink" not in argv
+    argv = [a for a in argv if a != "--no-shrink"]
     path = argv[0]
     with open(path) as f:
         body = json.load(f)
-    msg = replay_case(body)
+    msg = replay_case(body, shrink=shrink)
     if msg is None:
         print("REPLAY property=%s verdict=HOLDS case=%s" % (body["property"], path))
         return 0
